@@ -38,6 +38,7 @@ type merkleOp struct {
 	appended   int
 	sectorSeed uint64
 	short      int // bytes of sector data for reader-root ops (multiple of 64)
+	cacheLog   int // read-range: the host keeps the roots of all aligned subtrees of 2^cacheLog leaves (0: no cache)
 }
 
 func refRootOfData(data []byte) types.Hash256 { return ref.TreeRoot(ref.FileLeaves(data)) }
@@ -103,6 +104,7 @@ func drawMerkleOps(t *sim.Tape) []merkleOp {
 			op.short = pick(t, rhp4.SectorSize, 64, 128, 64*3, 64*64, 64*1000, rhp4.SectorSize/2, 64*17)
 		case 1:
 			op.kind = "read-range"
+			op.cacheLog = pick(t, 0, 0, 6, 1, 4, 10, 15)
 			n := uint64(rhp4.LeavesPerSector)
 			switch t.Choose(4) {
 			case 0:
@@ -205,7 +207,19 @@ func runMerkle(s *Session, ops []merkleOp) {
 		case "sector-root":
 			payload[i] = sec[:op.short]
 		case "read-range":
-			payload[i] = append(append([]byte(nil), sec[op.start*64:op.end*64]...), cat(rhp2.BuildProof(sec, op.start, op.end, nil))...)
+			var precalc func(i, j uint64) types.Hash256
+			if op.cacheLog > 0 {
+				// a host that keeps subtree roots: by definition, for exactly the aligned subtrees of one size
+				_, leafHashes := sector(op.sectorSeed)
+				size := uint64(1) << op.cacheLog
+				precalc = func(i, j uint64) (h types.Hash256) {
+					if j-i == size && i%size == 0 {
+						return ref.TreeRoot(leafHashes[i:j])
+					}
+					return
+				}
+			}
+			payload[i] = append(append([]byte(nil), sec[op.start*64:op.end*64]...), cat(rhp2.BuildProof(sec, op.start, op.end, precalc))...)
 		case "verify-leaf":
 			cache := rhp4.CachedSectorSubtrees(sec)
 			ss, se := rhp4.SectorSubtreeRange(op.start, op.start+1)
